@@ -102,10 +102,51 @@ def gen_k7(repo):
     return {'file': rel, 'line': line, 'closure': closure}
 
 
+def gen_k10(repo):
+    """closures passed to `.try_map(` after hex_int / oct_int / bin_int in fn integer, verbatim"""
+    sys.path.insert(0, HERE)
+    import extract
+    os.makedirs(GEN_DIR, exist_ok=True)
+    rel = 'crates/toml_edit/src/parser/numbers.rs'
+    src = extract.Source(os.path.join(repo, rel))
+    s_start, s_kw, s_open, s_close = extract.locate(src, 'fn', 'integer')
+    body = src.text[src.tok(s_open)[2]:src.tok(s_close)[3]]
+    base = src.tok(s_open)[2]
+    out = ['// GENERATED from %s fn integer: the closures passed to `.try_map(`, verbatim\n' % rel]
+    notes = {}
+    for name in ('hex_int', 'oct_int', 'bin_int'):
+        ms = list(re.finditer(r'\b%s\.try_map\(' % name, body))
+        if len(ms) != 1:
+            raise extract.LostAnchor('K10: expected exactly one `%s.try_map(` in fn integer, found %d' % (name, len(ms)))
+        i = ms[0].end()
+        depth = 1
+        j = i
+        while depth:
+            c = body[j]
+            if c == '(':
+                depth += 1
+            elif c == ')':
+                depth -= 1
+            elif c == '"':
+                j = body.index('"', j + 1)
+            elif c == "'" and body[j + 2] == "'":
+                j += 2
+            j += 1
+        closure = body[i:j - 1].strip()
+        if not closure.startswith('|'):
+            raise extract.LostAnchor('K10: argument of %s.try_map( is not a closure: %r' % (name, closure[:60]))
+        out.append('fn k10_%s_conv() -> impl Fn(&str) -> Result<i64, core::num::ParseIntError> {\n    %s\n}\n' % (name, closure))
+        notes[name] = {'file': rel, 'line': src.line_of(base + i), 'closure': closure}
+    with open(os.path.join(GEN_DIR, 'k10_int_closures.rs'), 'w') as f:
+        f.write(''.join(out))
+    return notes
+
+
 def ensure_gen(repo):
     """every generated include must exist for the crate to compile under cfg(kani)"""
     notes = {}
     notes['k7'] = gen_k7(repo)
+    notes['k10'] = gen_k10(repo)
     return notes
 
 
